@@ -56,9 +56,19 @@ pub fn run_generic(ctx: &mut Ctx, id: &'static str, methods: &'static [SolveMeth
     ctx.run_cases(n, |ctx, idx, rng| {
         let size = *rng.pick(&[0usize, 1, 1, 2, 2]);
         let contention = idx % 4 == 3;
-        let (desc, tree) = if contention && rng.chance(0.15) {
-            let k = rng.range(6, 40);
-            (format!("shared_chance_fan(k={})", k), gen::shared_chance_fan(rng, k))
+        // the frontier search of the parallel solvers only hands the still unexpanded nodes of the
+        // level on which the task target (3 x threads) is reached to the pool; the fan shapes are
+        // sized against a thread count so that almost the whole fan becomes tasks
+        let mut fan_threads: Option<usize> = None;
+        let (desc, tree) = if contention && rng.chance(0.25) {
+            let t = *rng.pick(&[2usize, 3, 4, 4, 8]);
+            fan_threads = Some(t);
+            let k = (3 * t - 1 - rng.below(2)).max(3);
+            if rng.chance(0.6) {
+                (format!("shared_chance_fan_below(k={},threads={})", k, t), gen::shared_chance_fan_below(rng, k, k > 12))
+            } else {
+                (format!("shared_chance_fan(k={},threads={})", k, t), gen::shared_chance_fan(rng, k))
+            }
         } else if contention {
             // contention workload: wide trees in which every move is hidden and chance infosets are
             // shared, so that one player infoset / one chance infoset lies below many frontier
@@ -74,7 +84,18 @@ pub fn run_generic(ctx: &mut Ctx, id: &'static str, methods: &'static [SolveMeth
             par.node_budget = rng.range(120, 500);
             (format!("g1-contention(depth<={},budget={},acts<={},chance={})", par.max_depth, par.node_budget, par.max_actions, par.p_chance), gen::random_tree(rng, &par))
         } else {
-            gen::any_game(rng, size)
+            // most small random games are too narrow for the frontier search to leave any task for
+            // the pool: prefer (not require) games on which some method of this property can run
+            // in parallel for some thread count
+            let want_parallel = rng.chance(0.7);
+            let mut g = gen::any_game(rng, size);
+            for _ in 0..5 {
+                if !want_parallel || methods.iter().any(|m| g.1.best_threads(solve::frontier_modes(*m), &[2, 3, 4, 5, 6, 8, 12, 16]).1 >= 2) {
+                    break;
+                }
+                g = gen::any_game(rng, size);
+            }
+            g
         };
         if tree.count_nodes() > 700 {
             ctx.count("skipped-large", 1);
@@ -87,7 +108,14 @@ pub fn run_generic(ctx: &mut Ctx, id: &'static str, methods: &'static [SolveMeth
                 return;
             }
         };
-        let method = *rng.pick(methods);
+        let mut method = *rng.pick(methods);
+        let cands = [2usize, 3, 4, 5, 6, 8, 12, 16];
+        if methods.len() > 1 && tree.best_threads(solve::frontier_modes(method), &cands).1 < 2 && rng.chance(0.6) {
+            // a method of this property whose frontier search leaves tasks on this game, if any
+            if let Some(m) = methods.iter().copied().find(|m| tree.best_threads(solve::frontier_modes(*m), &cands).1 >= 2) {
+                method = m;
+            }
+        }
         let params = if rng.chance(0.6) { ParamSpec::random(rng) } else { ParamSpec::random_custom(rng) };
         let iters = *rng.pick(&[1u64, 2, 2, 3, 3, 4, 4, 7, 7, 20, 100]);
         let iters = if prep.flat.nodes.len() > 200 { iters.min(20) } else { iters };
@@ -118,7 +146,20 @@ pub fn run_generic(ctx: &mut Ctx, id: &'static str, methods: &'static [SolveMeth
         };
         let reps = if quick { 2 } else { 3 };
         for rep in 0..reps {
-            let threads = if contention { *rng.pick(&[4usize, 8, 8, 16, 16]) } else { *rng.pick(&[2usize, 2, 3, 3, 4, 4, 8, 16, 64]) };
+            let mut threads = if contention { *rng.pick(&[4usize, 8, 8, 16, 16]) } else { *rng.pick(&[2usize, 2, 3, 3, 4, 4, 8, 16, 64]) };
+            if let Some(t) = fan_threads {
+                threads = t;
+            } else if rng.chance(0.8) {
+                // the thread count for which the modelled frontier has the most tasks
+                let modes = solve::frontier_modes(method);
+                let (t, tasks) = tree.best_threads(modes, &[2, 3, 4, 5, 6, 8, 12, 16]);
+                if tasks >= 2 {
+                    threads = t;
+                    ctx.count("thread-count-chosen-for-most-frontier-tasks", 1);
+                } else {
+                    ctx.count("no-thread-count-gives-two-frontier-tasks(modelled)", 1);
+                }
+            }
             let cfg = Cfg { threads, ..base_cfg };
             let jitter = contention || rng.chance(0.7);
             let flags = solve::ALL_LOGS | if jitter { verif::JITTER } else { 0 };
@@ -135,6 +176,7 @@ pub fn run_generic(ctx: &mut Ctx, id: &'static str, methods: &'static [SolveMeth
                     assignments.insert(ah);
                     orders.insert(oh);
                     ctx.max("max_threads_seen_processing_nodes_in_one_run", used as f64);
+                    ctx.count(&format!("runs_in_which_{}_workers_processed_nodes", match used { 0 | 1 => "1", 2 => "2", 3 | 4 => "3-4", 5..=8 => "5-8", _ => "9+" }), 1);
                     let stats = match solve::step_check(&prep, &cfg, &out, true) {
                         Ok(s) => s,
                         Err((sig, msg)) => {
